@@ -1,5 +1,5 @@
-// C11 scenario (duplicates): a member list; kinds are constants of the harness instance,
-// names are drawn from a pool of two.
+// C11 scenario (duplicates, order of appearance): a member list; the kinds are constants of the
+// harness instance, every member's name is solver-chosen from {"A", "B"}.
 use super::src_trait::Src;
 
 pub const NM: usize = 3;
@@ -9,7 +9,7 @@ pub const K_ERROR: u8 = 2;
 
 #[derive(Clone, Copy, Debug)]
 pub struct C11 {
-    /// name of member i: false = "Aa", true = "Bb"
+    /// name of member i: false = "A", true = "B"
     pub name_b: [bool; NM],
 }
 
@@ -23,11 +23,11 @@ pub fn draw<S: Src>(s: &mut S) -> C11 {
     C11 { name_b }
 }
 
-pub fn name_of(b: bool) -> &'static str {
+pub fn letter(b: bool) -> u8 {
     if b {
-        "Bb"
+        b'B'
     } else {
-        "Aa"
+        b'A'
     }
 }
 
@@ -45,4 +45,21 @@ pub fn has_duplicate(sc: &C11, n: usize) -> bool {
         i += 1;
     }
     false
+}
+
+/// kinds of a harness instance from its name suffix, e.g. "mte"
+pub fn kinds_of(suffix: &str) -> (usize, [u8; NM]) {
+    let mut k = [0u8; NM];
+    let mut n = 0;
+    for c in suffix.bytes() {
+        if n < NM {
+            k[n] = match c {
+                b'm' => K_METHOD,
+                b't' => K_TYPE,
+                _ => K_ERROR,
+            };
+            n += 1;
+        }
+    }
+    (n, k)
 }
